@@ -59,7 +59,13 @@ Inductive oout :=
 | ObsCrash
 | ObsDeadlock.
 
-Inductive case := Case (st : list (string * string)) (ops : list op) (obs : list oout).
+(* CaseN: the recorded VALUES are not known to the harness (CPU times sent by
+   TimeMeasure.Record of the client API; the operations carry 0 in their
+   place): only the count of every reported measure, the set of measures of
+   every result set (bucket membership by host) and the CSV layout are compared *)
+Inductive case :=
+| Case (st : list (string * string)) (ops : list op) (obs : list oout)
+| CaseN (st : list (string * string)) (ops : list op) (obs : list oout).
 
 (* ---------- tolerances ---------------------------------------------------- *)
 
@@ -93,6 +99,10 @@ Definition snap_diff (e : snap) (o : osnap) : list nat :=
   clause 4 (num_close (s_sum e) (decode (o_sum o)) (eps * mag * nq)) ++
   clause 5 (num_close (s_avg e) (decode (o_avg o)) (eps * mag)) ++
   clause 6 (dev_close (s_dev e) (decode (o_dev o)) (4 * eps * mag * mag)).
+
+(* count only (CaseN) *)
+Definition snap_diff_n (e : snap) (o : osnap) : list nat := clause 1 (Nat.eqb (s_n e) (o_n o)).
+Definition dsel (cnt : bool) := if cnt then snap_diff_n else snap_diff.
 
 (* ---------- the CSV line --------------------------------------------------- *)
 
@@ -197,38 +207,42 @@ Definition csv_obs_ok (st : list string) (os : list osnap) (csv : list string) :
 
 (* ---------- agree: model vs observation ----------------------------------- *)
 
-Fixpoint rows_agree (m : list (string * snap)) (o : list (string * osnap)) : bool :=
+Fixpoint rows_agree (cnt : bool) (m : list (string * snap)) (o : list (string * osnap)) : bool :=
   match m, o with
   | [], [] => true
   | (k, e) :: m', (k', s) :: o' =>
-      String.eqb k k' && match snap_diff e s with [] => true | _ => false end && rows_agree m' o'
+      String.eqb k k' && match dsel cnt e s with [] => true | _ => false end && rows_agree cnt m' o'
   | _, _ => false
   end.
 
-Definition out_agree (m : out) (o : oout) : bool :=
+Definition out_agree (cnt : bool) (m : out) (o : oout) : bool :=
   match m, o with
   | OutNone, ObsNone => true
   | OutHeader f, ObsHeader g => strs_eqb f g
   | OutValues st rows, ObsValues csv orows =>
-      rows_agree rows orows && csv_ok st (map snd rows) csv
-  | OutGet b rows, ObsGet b' orows => Bool.eqb b b' && rows_agree rows orows
+      rows_agree cnt rows orows &&
+      (if cnt then csv_obs_ok st (map snd orows) csv else csv_ok st (map snd rows) csv)
+  | OutGet b rows, ObsGet b' orows => Bool.eqb b b' && rows_agree cnt rows orows
   | OutCrash, ObsCrash => true
   | OutDeadlock, ObsDeadlock => true
   | _, _ => false
   end.
 
-Fixpoint outs_agree (m : list out) (o : list oout) : bool :=
+Fixpoint outs_agree (cnt : bool) (m : list out) (o : list oout) : bool :=
   match m, o with
   | [], [] => true
-  | x :: m', y :: o' => out_agree x y && outs_agree m' o'
+  | x :: m', y :: o' => out_agree cnt x y && outs_agree cnt m' o'
   | _, _ => false
   end.
 
 Definition model (c : case) : list out :=
-  match c with Case st ops _ => run_outs code_fixes st ops end.
+  match c with Case st ops _ | CaseN st ops _ => run_outs code_fixes st ops end.
 
 Definition agree (c : case) : bool :=
-  match c with Case _ _ obs => outs_agree (model c) obs end.
+  match c with
+  | Case _ _ obs => outs_agree false (model c) obs
+  | CaseN _ _ obs => outs_agree true (model c) obs
+  end.
 
 Definition mismatches (l : list case) : list nat := mism_idx agree l.
 
@@ -351,13 +365,13 @@ Definition sstep (s : sstate) (o : op) : sstate :=
 
 (* compare the reported rows of one result set with the recorded values.
    [kc] is the clause reported when the SET of measures differs. *)
-Fixpoint rows_check (kc : nat) (keys : list string) (r : recs) (o : list (string * osnap)) : list nat :=
+Fixpoint rows_check (cnt : bool) (kc : nat) (keys : list string) (r : recs) (o : list (string * osnap)) : list nat :=
   match keys, o with
   | [], [] => []
   | k :: keys', (k', s) :: o' =>
       if String.eqb k k' then
         match rec_find r k with
-        | Some l => snap_diff (exact l) s ++ rows_check kc keys' r o'
+        | Some l => dsel cnt (exact l) s ++ rows_check cnt kc keys' r o'
         | None => [kc]
         end
       else [kc]
@@ -380,7 +394,7 @@ Definition exact_rows (r : recs) : list snap :=
 Definition is_bucket_obj (s : sstate) (i : nat) : bool :=
   existsb (fun b => Nat.eqb (sb_obj b) i) (s_bks s).
 
-Definition ocheck (st : list (string * string)) (s : sstate) (o : op) (ob : oout) : list nat :=
+Definition ocheck (cnt : bool) (st : list (string * string)) (s : sstate) (o : op) (ob : oout) : list nat :=
   match ob with
   | ObsCrash | ObsDeadlock => [10]
   | _ =>
@@ -394,7 +408,7 @@ Definition ocheck (st : list (string * string)) (s : sstate) (o : op) (ob : oout
     | OValues i, ObsValues csv rows =>
         match nth_error (s_objs s) i with
         | Some (Some r) =>
-            rows_check (if is_bucket_obj s i then 8 else 9) (keys_of r) r rows ++
+            rows_check cnt (if is_bucket_obj s i then 8 else 9) (keys_of r) r rows ++
             clause 7 (csv_obs_ok (map snd st) (map snd rows) csv)
         | _ => []
         end
@@ -404,7 +418,7 @@ Definition ocheck (st : list (string * string)) (s : sstate) (o : op) (ob : oout
         | Some b =>
             match sb_rules b, nth_error (s_objs s) (sb_obj b) with
             | Some _, Some (Some r) =>
-                if found then rows_check 8 (keys_of r) r rows else [8]
+                if found then rows_check cnt 8 (keys_of r) r rows else [8]
             | _, _ => []
             end
         end
@@ -414,16 +428,16 @@ Definition ocheck (st : list (string * string)) (s : sstate) (o : op) (ob : oout
     end
   end.
 
-Fixpoint scheck (st : list (string * string)) (s : sstate) (ops : list op) (obs : list oout) : list nat :=
+Fixpoint scheck (cnt : bool) (st : list (string * string)) (s : sstate) (ops : list op) (obs : list oout) : list nat :=
   match ops, obs with
   | [], [] => []
   | o :: ops', ob :: obs' =>
       let s' := sstep s o in
-      match ocheck st s' o ob with
-      | [] => scheck st s' ops' obs'
+      match ocheck cnt st s' o ob with
+      | [] => scheck cnt st s' ops' obs'
       | l => match ob with
              | ObsCrash | ObsDeadlock => l            (* nothing happens afterwards *)
-             | _ => l ++ scheck st s' ops' obs'
+             | _ => l ++ scheck cnt st s' ops' obs'
              end
       end
   | _, _ => [11]
@@ -437,7 +451,8 @@ Fixpoint dedup (l : list nat) : list nat :=
 
 Definition check (c : case) : list nat :=
   match c with
-  | Case st ops obs => dedup (scheck st (mkSS [Some []] [] false) ops obs)
+  | Case st ops obs => dedup (scheck false st (mkSS [Some []] [] false) ops obs)
+  | CaseN st ops obs => dedup (scheck true st (mkSS [Some []] [] false) ops obs)
   end.
 
 Definition violations (l : list case) : list (nat * nat) := viols check l.
